@@ -3,13 +3,17 @@
 package main
 
 import (
+	"bufio"
 	"bytes"
 	"encoding/hex"
 	"encoding/json"
 	"fmt"
+	"io"
 	"os"
 	"path/filepath"
 	"sort"
+
+	"github.com/jf-tech/go-corelib/ios"
 
 	"verifharness/cmd/c09/iox"
 	"verifharness/vh"
@@ -33,7 +37,10 @@ type caseDesc struct {
 }
 
 type env struct {
-	hung     bool // a run did not return: stop generating, report what we have
+	nModel   map[string]int
+	maxModel int
+	cwm      *vh.CaseWriter // format-level reader model cases
+	hung     bool           // a run did not return: stop generating, report what we have
 	o        *vh.Opts
 	sum      *vh.Summary
 	cw       *vh.CaseWriter
@@ -247,6 +254,7 @@ func (e *env) checkFault(v iox.Variant, in []byte, sc iox.Schedule, fd faultDesc
 	if j >= 1 && (j-1 >= len(base) || base[j-1].Key() != steps[j-1].Key()) {
 		e.sum.Hist("last-result-before-fatal-differs:" + iox.FmtName(v.FmtIdx))
 	}
+	e.readerCase(v, in, sc, fd, log, steps, j)
 	e.sum.Hist("fatal-kind:" + iox.FmtName(v.FmtIdx) + ":" + steps[j].Kind)
 	e.sum.Hist(fmt.Sprintf("reads-from-fault-to-fatal:%d", j-i0))
 
@@ -286,6 +294,77 @@ func (e *env) checkFault(v iox.Variant, in []byte, sc iox.Schedule, fd faultDesc
 		e.cw.Add(fmt.Sprintf("FReader %s %s %s %s", vh.CoqNat(v.FmtIdx), cls, vh.CoqBool(rdCont), vh.CoqBool(isTerminal(steps[j].Kind) && steps[j].Kind != "eof")), desc)
 	}
 	return true
+}
+
+// readerCase ties the format-level model of the old fixed-length reader (Model/Fault.v fl_rows_run
+// / hf_run) to the real code: the lines the real line reader (StripBOM + bufio + ios.ByteReadLine)
+// delivers over exactly this input, schedule and fault, and the results of the real reader's
+// successive Read calls.
+func (e *env) readerCase(v iox.Variant, in []byte, sc iox.Schedule, fd faultDesc, log *vh.Log, steps []iox.Step, j int) {
+	var kind string
+	switch v.Name {
+	case "fixed-length", "fixed-length+crlf", "fixed-length+bom", "fixed-length+strings", "fixed-length+strings+crlf":
+		kind = "rows"
+	case "fixed-length+headerfooter":
+		kind = "hf"
+	default:
+		return
+	}
+	if log == nil || j < 0 || steps[j].Kind == "newtransform-error" {
+		return
+	}
+	// a bounded number of small cases per run (quick tier budget)
+	if len(in) > 1500 || e.nModel[kind] >= e.maxModel {
+		return
+	}
+	e.nModel[kind]++
+	fr := iox.NewFaultReaderK(iox.NewChunkReader(in, sc), fd.Pos, fd.Once, fd.Kind1, fd.Kind2)
+	fr.WithData = fd.WithData
+	rd, err := ios.StripBOM(fr)
+	if err != nil {
+		return
+	}
+	br := bufio.NewReader(rd)
+	var lines []string
+	var lerr error
+	for k := 0; k < 100000; k++ {
+		var l []byte
+		if l, lerr = ios.ByteReadLine(br); lerr != nil {
+			break
+		}
+		lines = append(lines, vh.CoqHex(l))
+	}
+	ioe := "(IoFault 1%N)"
+	if lerr == io.EOF {
+		ioe = "IoEOF"
+	}
+	var obs []string
+	for _, ev := range log.Reader {
+		if ev.Release {
+			continue
+		}
+		switch {
+		case ev.Err == nil:
+			obs = append(obs, "None")
+		case ev.Err == io.EOF:
+			obs = append(obs, "(Some RcEOF)")
+		case vh.IsFatal(v.FmtIdx, ev.Err):
+			obs = append(obs, "(Some RcFatal)")
+		default:
+			obs = append(obs, "(Some RcPlain)")
+		}
+	}
+	if n := len(obs); n == 0 || obs[n-1] == "None" {
+		return // the run was cut off before the reader became terminal
+	}
+	desc := caseDesc{v.Name, v.Schema, hex.EncodeToString(in), sc, fd}
+	if kind == "rows" {
+		e.cwm.Add(fmt.Sprintf("FRows 1%%nat %s %s %s", vh.CoqList(lines), ioe, vh.CoqList(obs)), desc)
+	} else {
+		envs := `[(hx "484452", hx "484452", true); (hx "424547", hx "454e44", false)]`
+		e.cwm.Add(fmt.Sprintf("FHf %s %s %s %s", envs, vh.CoqList(lines), ioe, vh.CoqList(obs)), desc)
+	}
+	e.sum.Hist("reader-model-case:" + kind)
 }
 
 func trunc(s []iox.Step, n int) []iox.Step {
@@ -368,6 +447,9 @@ func main() {
 	e.cw.PerFile = 700
 	cwc := vh.NewCaseWriter(o, "C16", "Base.ErrClass Model.Chunk Model.Fault", "fcase", "Fault.check_case")
 	cwc.PerFile = 16
+	e.nModel, e.maxModel = map[string]int{}, o.Count(120, 1500)
+	e.cwm = vh.NewCaseWriter(o, "C16m", "Base.ErrClass Model.Chunk Model.Fault", "fcase", "Fault.check_case")
+	e.cwm.PerFile = 40
 
 	if o.Replay != "" {
 		var rp struct {
@@ -432,7 +514,7 @@ func main() {
 		}
 	}
 
-	total := o.Count(330, 6000)
+	total := o.Count(330, 3000)
 	for c := 0; c < total && !e.hung; c++ {
 		v := e.variants[r.Pick(len(e.variants))]
 		gi := iox.GenInputForFaults(r, v)
@@ -447,7 +529,8 @@ func main() {
 
 	e.cw.Flush()
 	cwc.Flush()
-	sum.CaseFiles = append(e.cw.Files, cwc.Files...)
+	e.cwm.Flush()
+	sum.CaseFiles = append(append(e.cw.Files, cwc.Files...), e.cwm.Files...)
 	sum.Write(o)
 }
 
